@@ -619,3 +619,23 @@ func (p *Package) StyleIDs() map[string]bool {
 	}
 	return out
 }
+
+// StyleRunColor returns w:rPr/w:color@w:val of the style with the given id in word/styles.xml; ok is false when the style is not defined.
+func (p *Package) StyleRunColor(id string) (string, bool) {
+	t, pr := p.Tree("word/styles.xml")
+	if t == nil || len(pr) > 0 {
+		return "", false
+	}
+	for _, s := range t.ChildrenOf(NsW, "style") {
+		if s.AttrW("styleId") != id {
+			continue
+		}
+		if rp := s.Child(NsW, "rPr"); rp != nil {
+			if c := rp.Child(NsW, "color"); c != nil {
+				return c.AttrW("val"), true
+			}
+		}
+		return "", true
+	}
+	return "", false
+}
